@@ -232,6 +232,27 @@ theorem C02_source_pc_perm {β : Type} [DecidableEq β] (xs ys : List β) (h : x
     Generated.pc_one_sample xs = Generated.pc_one_sample ys := by
   rw [C02_source_pc_one_sample, C02_source_pc_one_sample]; exact C02_perm xs ys h
 
+/-- `pc` of TWO flat collections, as re-translated from the source on this run (`np.unique(return_counts=True)` of each,
+`np.intersect1d(..., return_indices=True)` selecting the counts of the shared values, divided by `len(array) * len(array2)`), is
+the model `pc2` -/
+theorem C02_source_pc_two_samples {β : Type} [DecidableEq β] (as bs : List β) : Generated.pc_two_samples as bs = pc2 as bs :=
+  gen_pc_two_samples_eq as bs
+
+/-- hence it is the fraction of cross pairs (one position from each sample) that hold equal elements (`C02_pc_cross` transported),
+independent of the order of either sample -/
+theorem C02_source_pc_cross_pairs {β : Type} [DecidableEq β] (as bs : List β) (ha : 1 ≤ as.length) (hb : 1 ≤ bs.length) :
+    Generated.pc_two_samples as bs * ((as.length : ℚ) * (bs.length : ℚ)) =
+      (((Finset.univ : Finset (Fin as.length × Fin bs.length)).filter
+        (fun b => as[b.1] = bs[b.2])).card : ℚ) := by
+  rw [C02_source_pc_two_samples]; exact C02_pc_cross as bs ha hb
+
+theorem C02_source_pc_cross_perm {β : Type} [DecidableEq β] (as as' bs bs' : List β) (h1 : as.Perm as') (h2 : bs.Perm bs') :
+    Generated.pc_two_samples as bs = Generated.pc_two_samples as' bs' := by
+  rw [C02_source_pc_two_samples, C02_source_pc_two_samples]; exact C02_perm_cross as as' bs bs' h1 h2
+
+example : Generated.pc_two_samples ["a", "b", "a"] ["a", "c", "b", "a"] = 5 / 12 := by
+  rw [C02_source_pc_two_samples]; decide +kernel
+
 example : Generated.pc_one_sample ["a", "b", "a", "c", "a", "b"] = 4 / 15 := by
   rw [C02_source_pc_one_sample]; decide +kernel
 
